@@ -36,10 +36,10 @@ static pref::Tables tables()
 }
 enum Backend { B_SEQ, B_AVX, B_AVX512, B_WRAP, NB };
 static const char *bname[] = {"seq", "avx", "avx512", "wrapper"};
-struct Case { int backend; size_t rows, cols, dim; int nthreads; size_t batch; /*0 = unbatched builder*/ int content; int outer; /*> 0: called by each of `outer` threads of a parallel region of the caller*/ };
+struct Case { int backend; size_t rows, cols, dim; int nthreads; size_t batch; /*0 = unbatched builder*/ int content; int outer; /*> 0: called by each of `outer` threads of a parallel region of the caller*/ int argform; /*1: default wrapper called with a 64-bit unsigned thread count and no dim argument*/ };
 static std::string casestr(const Case &c)
 {
-    return fmt("w=%u backend=%s rows=%zu cols=%zu dim=%zu nthreads=%d batch=%zu content=%d", W, bname[c.backend], c.rows, c.cols, c.dim, c.nthreads, c.batch, c.content) + (c.outer ? fmt(" outer=%d", c.outer) : std::string());
+    return fmt("w=%u backend=%s rows=%zu cols=%zu dim=%zu nthreads=%d batch=%zu content=%d", W, bname[c.backend], c.rows, c.cols, c.dim, c.nthreads, c.batch, c.content) + (c.outer ? fmt(" outer=%d", c.outer) : std::string()) + (c.argform ? fmt(" argform=%d", c.argform) : std::string());
 }
 static u64 content(int kind, size_t i, size_t n)
 {
@@ -53,6 +53,14 @@ static const char *sigprefix(const Case &c) { return c.batch ? "merkletree_batch
 
 static void build_tree(const Case &c, E *tree, E *inp)
 {
+    if (c.argform == 1 && c.backend == B_WRAP && c.dim == 1)
+    {
+        // the way a caller with a size_t / uint64_t configuration value writes it: thread count of another integer type, dim omitted
+        const uint64_t nt64 = (uint64_t)c.nthreads;
+        if (c.batch == 0) PoseidonGoldilocks::merkletree(tree, inp, c.cols, c.rows, nt64);
+        else PoseidonGoldilocks::merkletree_batch(tree, inp, c.cols, c.rows, c.batch, nt64);
+        return;
+    }
     if (c.batch == 0)
     {
         switch (c.backend)
@@ -173,7 +181,7 @@ int main(int argc, char **argv)
     {
         auto m = parse_case(args.one);
         if (cu(m, "w", 32) != W) { printf("INFO skip width\n"); return 0; }
-        Case c{0, (size_t)cu(m, "rows"), (size_t)cu(m, "cols"), (size_t)cu(m, "dim"), (int)cu(m, "nthreads"), (size_t)cu(m, "batch"), (int)cu(m, "content"), (int)cu(m, "outer", 0)};
+        Case c{0, (size_t)cu(m, "rows"), (size_t)cu(m, "cols"), (size_t)cu(m, "dim"), (int)cu(m, "nthreads"), (size_t)cu(m, "batch"), (int)cu(m, "content"), (int)cu(m, "outer", 0), (int)cu(m, "argform", 0)};
         std::string b = cs(m, "backend");
         for (int i = 0; i < NB; i++) if (b == bname[i]) c.backend = i;
         ChildResult r = run_child([&](FILE *f) { dup2(fileno(f), 1); rep().reset(); run_case(R, c); rep().flush(); fflush(stdout); });
@@ -330,6 +338,19 @@ int main(int argc, char **argv)
                         }
         }
         rep().stat("cases_with_huge_batch_size", added);
+    }
+    {
+        // other integer types for the thread-count argument of the default wrappers (overload resolution must not change the meaning)
+        long long added = 0;
+        for (size_t r : {(size_t)2, (size_t)8})
+            for (size_t cc : {(size_t)3, (size_t)9})
+                for (int t : {2, 3, 7})
+                {
+                    cases.push_back({B_WRAP, r, cc, 1, t, 0, (int)((r + cc) % 3), 0, 1});
+                    cases.push_back({B_WRAP, r, cc, 1, t, 2, (int)((r + cc + 1) % 3), 0, 1});
+                    added += 2;
+                }
+        rep().stat("cases_with_other_argument_types", added);
     }
     if (!args.num("light", 0))
     {
